@@ -210,7 +210,7 @@ def materialise(thorough):
             ch.append(('%s|prefix%d' % (lab, n), txt[:n], loops))
         seg, ele, sub = ref.delims(txt)
         for i in range(len(txt)):
-            for c in (seg, ele, sub, ' ', '\n', 'A'):
+            for c in (seg, ele, sub, ' ', '\n', 'A', '\x00', '\t', '\xe9', '\u0663', '\u2028', '%', '{'):
                 if txt[i] != c:
                     ch.append(('%s|subst%d:%r' % (lab, i, c), txt[:i] + c + txt[i + 1:], loops))
     ITEMS['char'] = ch
@@ -326,7 +326,7 @@ def run(R):
     R.cov['texts_per_family'] = dict((k, len(v)) for k, v in ITEMS.items())
     R.pmap(work, shards)
     R.bounds = {'mut1': 'every single structural mutation (delete, duplicate, swap, truncate, retag, bare, first element only, 20 / 100 extra elements, extra components, 9000-char element, orphan SE/GE/IEA/ST/GS/HL/LX with and without elements, inserted TA1 (good and bad) and unknown segment, empty/blank line, 5 bad counts) at every position of %d base documents, x sinks %s' % (len(base_docs(R.thorough)), '{none, all}' if R.thorough else '{all}'),
-                'char': 'every prefix and every single-character substitution by {seg, ele, sub, SP, LF, A} of 2 small documents',
+                'char': 'every prefix and every single-character substitution by {seg, ele, sub, SP, LF, A, NUL, HT, e-acute, ARABIC-INDIC DIGIT THREE, LINE SEPARATOR, %, {} of 2 small documents',
                 'strings': 'all strings <=4 over {I,S,A,*,~,SP,LF}, alone and after a well-formed ISA; 11 special headers',
                 'configs': 'every base document x 8 sink subsets x charset {B,E}',
                 'envseq': 'every sequence of length <=%d over {ISA,GS,ST,body,SE,GE,IEA,TA1%s} after a well-formed ISA; context reader with loop id None, ST_LOOP, GS_LOOP, ISA_LOOP' % (5 if R.thorough else 4, ',HL' if R.thorough else ''),
